@@ -439,6 +439,8 @@ class C15B(EngineBase):
                 return ops.g_new(ctx, st.heap)
             steps[-1]["a"]["mode"] = None
             steps[-1]["a"].pop("preserve_array", None)
+            # through the function and through autoray dispatch alike
+            steps[-1]["a"]["style"] = rng.choice(["method", "do"])
         elif k < 0.85:
             steps = ops.g_fuse(ctx, st.heap) or ops.g_new(ctx, st.heap)
         else:
